@@ -116,7 +116,9 @@ def run():
         runs = [dict(module="MCPackages.tla", cfg="MCPackagesQuick.cfg")]
     flow.mc_runs(out, runs)
     trace = os.path.join(vlib.scratch(), "packages.ndjson")
-    vlib.run_zv(zv, "packages", [], trace)
+    # 8 processes: building the full tree is one evaluation of ~2 s CPU under the harness's 40 s wall-clock
+    # limit; with 16 processes on a loaded machine that limit is hit (exit 2)
+    vlib.run_zv(zv, "packages", [], trace, nshard=8)
     env = {"VERIF_DEVS": _devs()}
     cases, v = flow.validate(out, "packages", "PackagesTrace.tla", "PackagesTrace.cfg", trace, zv, env=env, timeout=2400)
     evs, combos, tally = _coverage(cases)
